@@ -180,7 +180,10 @@ func checkC07(raw json.RawMessage) iso.Result {
 		return col.Done()
 	}
 	for _, name := range pool.all() {
-		want := env.Vars[name]
+		want, declared := env.Vars[name]
+		if !declared && !strings.Contains(name, ".http.") {
+			continue // not part of this program's pool
+		}
 		if strings.Contains(name, ".http.") {
 			w, ok := env.Vars[strings.ToLower(name)]
 			if !ok {
